@@ -8,22 +8,30 @@ import WzVerif.Gen.Debugger
 namespace Wz.Props.C20
 open Wz Wz.Dbg Wz.Gen.Debugger
 
-/-! ### the live dispatch table (regenerated on every run by driving the real DebuggedApplication) -/
+/-! ### the live dispatch table (regenerated on every run by driving the real DebuggedApplication)
 
-/-- The table is the complete product of its dimensions, and no point produced an answer the
-rig could not classify (`f`). -/
+A point of the table is addressed as (`idx`, `j`): `idx < nRows` enumerates command × secret × Host,
+`j < rowLen` enumerates PIN cookie × frame × evalex × pin; `pointAt idx j` decodes the coordinates and
+`outcomeAt idx j` is what the real application did there. -/
+
+/-- The table is the complete product of its dimensions, and no point produced an answer the rig
+could not classify (`f`) or a missing resource. -/
 theorem table_complete :
-    outcomes.length = dims.foldl (· * ·) 1 ∧ dims.length = 7 ∧ hosts.length = dim 2 ∧
-    checkAll (fun _ o => o != 15 && o != 2) 0 outcomes = true := by
+    rows.length = nRows ∧ nRows = nCmd * nSec * nHost ∧ rowLen = nCookie * nFrame * 2 * 2 ∧
+    dims = [nCmd, nSec, nHost, nCookie, nFrame, 2, 2] ∧
+    hosts.length = nHost ∧ hostClasses = hosts.map (·.2.1) ∧ hostVerdicts = hosts.map (·.2.2) ∧
+    checkTable (fun _ _ o => o != 15 && o != 2) = true := by
   decide +kernel
+
+theorem rows_length : rows.length = nRows := table_complete.1
 
 /-- The model's `dispatch` (fed with the live Host verdict) predicts the observed outcome of the real
 `DebuggedApplication.__call__` at every point of the product. -/
 theorem table_matches_model :
-    ∀ i (h : i < outcomes.length), outcomes[i] = modelOutcome (pointOf i) := by
-  have key : checkAll (fun i o => o == modelOutcome (pointOf i)) 0 outcomes = true := by decide +kernel
-  intro i h
-  simpa using checkAll_outcomes key i h
+    ∀ idx j, idx < nRows → j < rowLen → outcomeAt idx j = modelOutcome (pointAt idx j) := by
+  have key : checkTable (fun idx j o => o == modelOutcome (pointAt idx j)) = true := by decide +kernel
+  intro idx j hi hj
+  simpa using checkTable_get key rows_length idx j hi hj
 
 /-- The live `host_is_trusted` never raised on the listed Hosts, accepted no Host of the
 "must never be accepted" class (look-alikes, unrelated names, absent/empty, IPv6 literals, empty or
@@ -39,8 +47,8 @@ theorem table_host_model :
       (hostIsTrusted asciiIdna r.1 defaultTrusted = (r.2.2 == 1)) := by
   decide +kernel
 
-def evalGateOk (i o : Nat) : Bool :=
-  let p := pointOf i
+def evalGateOk (idx j o : Nat) : Bool :=
+  let p := pointAt idx j
   o != 4 || (p.cmd == 0 && p.evalex && hostClass p != 1 && p.sec == 0 && p.frame == 0 &&
     (!p.pinOn || p.cookie == 0))
 
@@ -48,94 +56,103 @@ def evalGateOk (i o : Nat) : Bool :=
 with evalex on, a Host that is not in the never-accept class, the right secret, a known frame and
 (pin off or a valid unexpired cookie). -/
 theorem eval_gate_table :
-    ∀ i (h : i < outcomes.length), outcomes[i] = 4 →
-      (pointOf i).cmd = 0 ∧ (pointOf i).evalex = true ∧ hostClass (pointOf i) ≠ 1 ∧
-      (pointOf i).sec = 0 ∧ (pointOf i).frame = 0 ∧
-      ((pointOf i).pinOn = false ∨ (pointOf i).cookie = 0) := by
-  have key : checkAll evalGateOk 0 outcomes = true := by decide +kernel
-  intro i h ho
-  have := checkAll_outcomes key i h
+    ∀ idx j, idx < nRows → j < rowLen → outcomeAt idx j = 4 →
+      (pointAt idx j).cmd = 0 ∧ (pointAt idx j).evalex = true ∧ hostClass (pointAt idx j) ≠ 1 ∧
+      (pointAt idx j).sec = 0 ∧ (pointAt idx j).frame = 0 ∧
+      ((pointAt idx j).pinOn = false ∨ (pointAt idx j).cookie = 0) := by
+  have key : checkTable evalGateOk = true := by decide +kernel
+  intro idx j hi hj ho
+  have := checkTable_get key rows_length idx j hi hj
   simp only [evalGateOk, ho] at this
-  simpa using this
+  simpa [and_assoc] using this
 
 /-- the gate is not vacuous: the first point of the table (eval, right secret, localhost, valid
 cookie, known frame, evalex on, pin on) did evaluate -/
-example : outcomes[0]? = some 4 := by decide +kernel
+example : outcomeAt 0 0 = 4 := by decide +kernel
 
-def consoleGateOk (i o : Nat) : Bool :=
-  let p := pointOf i
+def consoleGateOk (idx j o : Nat) : Bool :=
+  let p := pointAt idx j
   o != 5 || (p.cmd == 1 && p.evalex && hostClass p != 1)
 
 /-- **console gate, live table**: the console page was rendered only for the console path with
 evalex on and a Host outside the never-accept class. -/
 theorem console_gate_table :
-    ∀ i (h : i < outcomes.length), outcomes[i] = 5 →
-      (pointOf i).cmd = 1 ∧ (pointOf i).evalex = true ∧ hostClass (pointOf i) ≠ 1 := by
-  have key : checkAll consoleGateOk 0 outcomes = true := by decide +kernel
-  intro i h ho
-  have := checkAll_outcomes key i h
+    ∀ idx j, idx < nRows → j < rowLen → outcomeAt idx j = 5 →
+      (pointAt idx j).cmd = 1 ∧ (pointAt idx j).evalex = true ∧ hostClass (pointAt idx j) ≠ 1 := by
+  have key : checkTable consoleGateOk = true := by decide +kernel
+  intro idx j hi hj ho
+  have := checkTable_get key rows_length idx j hi hj
   simp only [consoleGateOk, ho] at this
-  simpa using this
+  simpa [and_assoc] using this
 
-def pinGateOk (i o : Nat) : Bool :=
-  let p := pointOf i
+def pinauthGateOk (idx j o : Nat) : Bool :=
+  let p := pointAt idx j
   (!(8 ≤ o && o ≤ 11) || ((p.cmd == 2 || p.cmd == 3) && p.sec == 0 && hostClass p != 1)) &&
-  (!(o == 6 || o == 7) || (p.cmd == 4 && p.sec == 0 && hostClass p != 1)) &&
   -- authenticated only through a valid cookie, the right PIN, or with the PIN switched off
   (!(o == 10 || o == 11) || (!p.pinOn || p.cookie == 0 || p.cmd == 2))
 
-/-- **pinauth / printpin gates, live table**: the PIN endpoints answered (JSON body / empty 200,
-log line) only for their own command with the right secret and a Host outside the never-accept
-class; `auth` was granted only with pin off, a valid cookie, or the right PIN. -/
-theorem pin_gates_table :
-    ∀ i (h : i < outcomes.length),
-      ((8 ≤ outcomes[i] ∧ outcomes[i] ≤ 11) →
-        ((pointOf i).cmd = 2 ∨ (pointOf i).cmd = 3) ∧ (pointOf i).sec = 0 ∧ hostClass (pointOf i) ≠ 1) ∧
-      ((outcomes[i] = 6 ∨ outcomes[i] = 7) →
-        (pointOf i).cmd = 4 ∧ (pointOf i).sec = 0 ∧ hostClass (pointOf i) ≠ 1) ∧
-      ((outcomes[i] = 10 ∨ outcomes[i] = 11) →
-        (pointOf i).pinOn = false ∨ (pointOf i).cookie = 0 ∨ (pointOf i).cmd = 2) := by
-  have key : checkAll pinGateOk 0 outcomes = true := by decide +kernel
-  intro i h
-  have := checkAll_outcomes key i h
-  simp only [pinGateOk, Bool.and_eq_true, Bool.or_eq_true, Bool.not_eq_true', Bool.and_eq_false_imp,
-    decide_eq_true_eq, beq_iff_eq, bne_iff_ne, ne_eq, Bool.not_eq_eq_eq_not, Bool.not_true,
-    decide_eq_false_iff_not, Bool.or_eq_false_iff, beq_eq_false_iff_ne] at this
-  obtain ⟨⟨h1, h2⟩, h3⟩ := this
-  refine ⟨?_, ?_, ?_⟩
-  · intro ⟨ha, hb⟩
-    rcases h1 with h1 | h1
+/-- **pinauth gate, live table**: the PIN endpoint answered (JSON body) only for its own command
+with the right secret and a Host outside the never-accept class; `auth` was granted only with pin
+off, a valid cookie, or the right PIN. -/
+theorem pinauth_gate_table :
+    ∀ idx j, idx < nRows → j < rowLen →
+      ((8 ≤ outcomeAt idx j ∧ outcomeAt idx j ≤ 11) →
+        ((pointAt idx j).cmd = 2 ∨ (pointAt idx j).cmd = 3) ∧ (pointAt idx j).sec = 0 ∧
+        hostClass (pointAt idx j) ≠ 1) ∧
+      ((outcomeAt idx j = 10 ∨ outcomeAt idx j = 11) →
+        (pointAt idx j).pinOn = false ∨ (pointAt idx j).cookie = 0 ∨ (pointAt idx j).cmd = 2) := by
+  have key : checkTable pinauthGateOk = true := by decide +kernel
+  intro idx j hi hj
+  have := checkTable_get key rows_length idx j hi hj
+  generalize outcomeAt idx j = o at this ⊢
+  generalize pointAt idx j = p at this ⊢
+  simp only [pinauthGateOk, Bool.and_eq_true, Bool.or_eq_true, Bool.not_eq_true', decide_eq_true_eq,
+    beq_iff_eq, bne_iff_ne, ne_eq, Bool.and_eq_false_imp, decide_eq_false_iff_not,
+    Bool.or_eq_false_iff, beq_eq_false_iff_ne] at this
+  obtain ⟨h1, h2⟩ := this
+  refine ⟨fun ⟨ha, hb⟩ => ?_, fun ho => ?_⟩
+  · rcases h1 with h1 | h1
     · exact absurd hb (h1 ha)
     · exact ⟨h1.1.1, h1.1.2, h1.2⟩
-  · intro ho
-    rcases h2 with h2 | h2
+  · rcases h2 with h2 | h2
     · rcases ho with ho | ho
       · exact absurd ho h2.1
       · exact absurd ho h2.2
-    · exact ⟨h2.1.1, h2.1.2, h2.2⟩
-  · intro ho
-    rcases h3 with h3 | h3
-    · rcases ho with ho | ho
-      · exact absurd ho h3.1
-      · exact absurd ho h3.2
-    · rcases h3 with (h3 | h3) | h3
-      · exact Or.inl h3
-      · exact Or.inr (Or.inl h3)
-      · exact Or.inr (Or.inr h3)
+    · rcases h2 with (h2 | h2) | h2
+      · exact Or.inl h2
+      · exact Or.inr (Or.inl h2)
+      · exact Or.inr (Or.inr h2)
 
-def untrustedOk (i o : Nat) : Bool :=
-  let p := pointOf i
+def printpinGateOk (idx j o : Nat) : Bool :=
+  let p := pointAt idx j
+  !(o == 6 || o == 7) || (p.cmd == 4 && p.sec == 0 && hostClass p != 1)
+
+/-- **printpin gate, live table**: the PIN was logged / the endpoint answered only for its own
+command with the right secret and a Host outside the never-accept class. -/
+theorem printpin_gate_table :
+    ∀ idx j, idx < nRows → j < rowLen → (outcomeAt idx j = 6 ∨ outcomeAt idx j = 7) →
+      (pointAt idx j).cmd = 4 ∧ (pointAt idx j).sec = 0 ∧ hostClass (pointAt idx j) ≠ 1 := by
+  have key : checkTable printpinGateOk = true := by decide +kernel
+  intro idx j hi hj ho
+  have := checkTable_get key rows_length idx j hi hj
+  generalize outcomeAt idx j = o at this ho
+  generalize pointAt idx j = p at this ⊢
+  simp only [printpinGateOk] at this
+  rcases ho with rfl | rfl <;> simpa [and_assoc] using this
+
+def untrustedOk (idx j o : Nat) : Bool :=
+  let p := pointAt idx j
   hostClass p != 1 || (o == 0 || o == 1 || o == 3)
 
 /-- **untrusted Host, live table**: a Host of the never-accept class gets the wrapped application,
 a static resource, or a 400 SecurityError — never a debugger answer and never another failure. -/
 theorem untrusted_host_table :
-    ∀ i (h : i < outcomes.length), hostClass (pointOf i) = 1 →
-      outcomes[i] = 0 ∨ outcomes[i] = 1 ∨ outcomes[i] = 3 := by
-  have key : checkAll untrustedOk 0 outcomes = true := by decide +kernel
-  intro i h hc
-  have := checkAll_outcomes key i h
+    ∀ idx j, idx < nRows → j < rowLen → hostClass (pointAt idx j) = 1 →
+      outcomeAt idx j = 0 ∨ outcomeAt idx j = 1 ∨ outcomeAt idx j = 3 := by
+  have key : checkTable untrustedOk = true := by decide +kernel
+  intro idx j hi hj hc
+  have := checkTable_get key rows_length idx j hi hj
   simp only [untrustedOk, hc] at this
-  simpa using this
+  simpa [or_assoc] using this
 
 end Wz.Props.C20
